@@ -1,6 +1,7 @@
 import Driver.Util
 import Helm.Model.Manifest
 import Helm.Gen.Tables
+import Helm.Spec.Tables
 open Lean Helm.Manifest
 namespace Driver.C08
 
@@ -16,8 +17,11 @@ def hookJson (h : Hook) : Json := Json.mkObj [
 def manifestJson (m : Manifest) : Json := Json.mkObj [
   ("name", jstr m.name), ("content", jchars m.content), ("kind", jstr m.head.kind)]
 
+/-- The driver answers with the *documented* tables (Helm.Spec); the theorems `*_is_spec` show
+they are the tables regenerated from the source.  If the source's table changes, that obligation
+breaks and the correspondence exhibits a manifest set ordered differently from the documented order. -/
 def orderOf (j : Json) : List String :=
-  if str j "order" == "uninstall" then Helm.Gen.uninstallOrder else Helm.Gen.installOrder
+  if str j "order" == "uninstall" then Helm.Spec.uninstallOrder else Helm.Spec.installOrder
 
 def run (op : String) (j : Json) : Option Json :=
   match op with
@@ -34,9 +38,9 @@ def run (op : String) (j : Json) : Option Json :=
       let headOf := fun (d : Str) => match heads.find? (·.1 == String.ofList d) with
         | some (_, h) => headOfJson h
         | none => {}
-      let r := sortManifests (orderOf j) Helm.Gen.hookEvents headOf files
+      let r := sortManifests (orderOf j) Helm.Spec.hookEvents headOf files
       some <| Json.mkObj [("hooks", jlist hookJson r.hooks), ("manifests", jlist manifestJson r.manifests),
-        ("dropped", toJson (droppedCount (classifyAll Helm.Gen.hookEvents headOf (docsOf files))))]
+        ("dropped", toJson (droppedCount (classifyAll Helm.Spec.hookEvents headOf (docsOf files))))]
   | "renderAssemble" =>
     let files := (arr j "files").map fun f => match asArr f with
       | [p, c] => (asStr p, (asStr c).toList)
@@ -46,7 +50,7 @@ def run (op : String) (j : Json) : Option Json :=
     let headOf := fun (d : Str) => match heads.find? (·.1 == String.ofList d) with
       | some (_, h) => headOfJson h
       | none => {}
-    let r := sortManifests Helm.Gen.installOrder Helm.Gen.hookEvents headOf rest
+    let r := sortManifests Helm.Spec.installOrder Helm.Spec.hookEvents headOf rest
     some <| Json.mkObj [("manifest", jchars (assemble r.manifests)), ("hooks", jlist hookJson r.hooks), ("notes", jchars n)]
   | "notes" =>
     let files := (arr j "files").map fun f => match asArr f with
